@@ -408,7 +408,7 @@ Definition live_hyp_vault (g : gen) (v : vault_in) : bool :=
    hypotheses hold is seized within this many blocks; [m] = list length when it became unsafe
    plus the creations since, [c] = those creations, [b] = batch size *)
 Definition live_R (m b : Z) : Z := (m - 1) / b + 2.
-Definition live_bound (m c b : Z) : Z := m * live_R m b + c.
+Definition live_bound (m c b : Z) : Z := m * live_R m b + 2 * c.
 
 Definition holds_C09_live (age m c b : Z) : bool := age <=? live_bound m c b.
 
@@ -452,6 +452,39 @@ Definition ev_step (batch : Z) (st : list Z * Z) (e : event) : list Z * Z :=
   | EBlock unsafe => let r := block_ids (fst st) (snd st) batch unsafe in (snd (fst r), snd r)
   | EClose id => (filter (fun x => negb (x =? id)) (fst st), snd st)
   | ECreate id => (fst st ++ [id], snd st)
+  end.
+
+(* position of x in the list (0-based; length of the list when absent) *)
+Fixpoint idxn (x : Z) (l : list Z) : nat :=
+  match l with [] => O | a :: r => if a =? x then O else S (idxn x r) end.
+Definition idx (x : Z) (l : list Z) : Z := Z.of_nat (idxn x l).
+
+(* the potential of the liveness proof: blocks the offset still needs to reach index i in a
+   list of n positions (an upper estimate), see Proofs *)
+Definition pot_T (n i off b : Z) : Z :=
+  if off <? n then
+    if off <=? i then (i - off) / b else (n - off + i) / b + 1
+  else i / b.
+Definition pot (b : Z) (x : Z) (st : list Z * Z) (c : Z) : Z :=
+  let n := zlen (fst st) in
+  let m := n + c in
+  pot_T n (idx x (fst st)) (snd st) b + 2 * c + (m - 1) * live_R m b.
+
+Definition is_block (e : event) : Z := match e with EBlock _ => 1 | _ => 0 end.
+Definition is_create (e : event) : Z := match e with ECreate _ => 1 | _ => 0 end.
+Definition n_blocks (evs : list event) : Z := zsum (map is_block evs).
+Definition n_creates (evs : list event) : Z := zsum (map is_create evs).
+
+(* V2 hook iterated k times *)
+Fixpoint run_v2 (capf : Z -> Z) (batch : Z) (k : nat) (st : v2_state) : outcome v2_state :=
+  match k with
+  | O => Ok st
+  | S k' =>
+      match sweep_v2 capf batch st with
+      | Ok (_, _, st', _) => run_v2 capf batch k' st'
+      | Err c => Err c
+      | Panic => Panic
+      end
   end.
 
 (* number of blocks until [x] leaves the list under constant verdicts, at most [fuel] *)
